@@ -136,6 +136,37 @@ def run(ctx):
                       "pre-increment accumulator minus >= 3), so a terminator split over two reads is found", floor=1)
     rep.rule("SRV-6", "the read counter of a connection is declared or reset inside the accept loop (no state leaks from "
                       "one connection into the next)", floor=1)
+    rep.rule("SRV-7", "serving a request makes a bounded number of connection attempts: no `loop`/`while` awaits a "
+                      "connect() (a retry loop on the observation socket wedges the single-connection exporter for as "
+                      "long as the daemon refuses connections)", floor=1)
+    n_connect = 0
+    for key, (u, h) in sorted(prog.hir.items()):
+        if u.crate not in ("statime_linux", "statime_metrics_exporter") and u.name != "statime-bin":
+            continue
+        if "::tests::" in key or "metrics" not in key:
+            continue
+        body7 = hir.simplify(hir.fn_body(h))
+
+        def is_connect(n):
+            if n.get("k") != "await":
+                return False
+            e = hir.strip_wrappers(n["e"])
+            return e.get("k") in ("mcall", "call") and hir.callee_name(e).endswith("::connect")
+        in_loop = set()
+        for L in hir.walk(body7, enter_closures=True):
+            if L.get("k") == "loop" and "ForLoop" not in (L.get("src") or ""):
+                for x in hir.walk(L, True):
+                    if is_connect(x):
+                        in_loop.add(id(x))
+                        rep.violation("SRV-7", key, "connect inside a loop",
+                                      "connect() is awaited inside a `%s`: while the peer refuses connections the request "
+                                      "never completes, and the exporter serves one connection at a time" % (L.get("src") or "loop"),
+                                      where=hir.where(x))
+        for x in hir.walk(body7, enter_closures=True):
+            if is_connect(x):
+                n_connect += 1
+                if id(x) not in in_loop:
+                    rep.ok("SRV-7", key, "single connection attempt", where=hir.where(x))
     n_fns = 0
     accept_loops = 0
     for key, (u, h) in sorted(prog.hir.items()):
